@@ -32,6 +32,9 @@ KNOWN_PREFIX = ("SizeBound: metrics, bytes sizer, the part holds data points spl
                 "2 bytes (length prefix of the nested data point list not budgeted)")
 KNOWN_ATTACH = ("DoneErrIff: request reported failed although no part holding its data failed; the failed part is the first "
                 "result of the MergeSplit with the held batch and holds no item of the request")
+KNOWN_TAIL = ("DoneErrIff: request reported failed although no part holding its data failed; a MergeSplit inside the batcher had "
+              "returned, after parts with its data, a last part without any item that holds only containers of the request (the "
+              "remainder of the split), and an export call started after that failed")
 
 
 def tla_set(xs):
@@ -150,10 +153,24 @@ def batch_scripts(c, behs, lib, count, sid0):
         # more requests than the behaviour has: repeat it (ids stay distinct, the driver numbers requests)
         if rng.random() < 0.5:
             reqs = reqs + [dict(r, gap_us=rng.choice([0, 500, 5000])) for r in reqs]
+        # one script in four: the requests arrive one after the other, 3 ms apart (the order of the behaviour, in practice
+        # deterministic), well inside one flush interval
+        staggered = rng.random() < 0.25
+        if staggered:
+            reqs = [dict(r, gap_us=3000 * n) for n, r in enumerate(reqs)]
         out.append(dict(sid=sid0 + i, kind="batch", signal=rng.choice(SIGNALS), sizer=b["sizer"], max=mx, min=min(mn, mx) if mx else mn,
-                        flush_ms=rng.choice([15, 30, 60]), reqs=reqs,
+                        flush_ms=60 if staggered else rng.choice([15, 30, 60]), reqs=reqs,
                         fail=sorted(rng.sample(range(1, 7), rng.choice([0, 0, 1, 2]))),
                         export_delay_us=rng.choice([0, 0, 300, 3000])))
+    # directed family (what the open finding C04-split-dataless-remainder needs, so that it is exercised by every run and a
+    # repair can be validated): a small first request that has to be split alone, max_size = min_size a little below its
+    # size (bytes), the next requests a few ms later, the export calls right after its first one fail
+    for i in range(count // 6):
+        mx = rng.choice(range(200, 330, 10))
+        reqs = [req_spec(lib, rng.choice([1, 2, 3, 4, 8]), 0, 1, gap_us=0)]
+        reqs += [req_spec(lib, rng.choice(STD), 0, rng.choice([1, 1] + att), gap_us=3000 * (n + 1)) for n in range(rng.choice([1, 2]))]
+        out.append(dict(sid=sid0 + count + i, kind="batch", signal=rng.choice(SIGNALS + ["metrics"] * 4), sizer="bytes", max=mx, min=mx,
+                        flush_ms=60, reqs=reqs, fail=rng.choice([[2], [2, 3], [3]]), export_delay_us=0))
     return out
 
 
@@ -192,34 +209,54 @@ def descriptor_only_loss(ctxd, triples):
     return True
 
 
-def rider_shape(events, done_line, r):
-    """DoneErrIff signature: among the events of the script up to the done event of request r there is a FAILED export call k
-    that holds no item and no container of r, was started after r was handed in, holds items of earlier requests only (the
-    held batch), and is emitted next to a part of r (directly before one, or with the timer's flush of r's kept last part
-    in between, or directly after it) = the first result of the MergeSplit of the held batch with r; no part with data of r
-    failed."""
+def _callback_facts(events, done_line, r):
+    """what the two DoneErrIff signatures need from the events of a script up to the done event of request r: the line at
+    which the batcher consumed each request (= the recorded return of its MergeSplit, "split" events), the export calls, and
+    whether a failed call holds an item or a container of r (then neither signature applies)"""
     req_of = lambda e: {it["id"] // 1000 - 100 for it in e["items"]}
     mine = lambda e: r in req_of(e) or r in e.get("reqs", [])
-    order = {}                     # request -> line it was handed in
-    emits, failed = [], set()
+    taken, emits, failed = {}, [], set()
     for i, e in enumerate(events[:done_line]):
-        if e["ev"] == "consume":
-            order[e["req"]] = i
+        if e["ev"] == "split":
+            taken.setdefault(e["req"], i)
         elif e["ev"] == "emit":
             emits.append((i, e))
         elif e["ev"] == "emit_end" and not e["ok"]:
             failed.add(e["k"])
-    if r not in order or any(e["k"] in failed and mine(e) for _, e in emits):
+    own_failed = any(e["k"] in failed and mine(e) for _, e in emits)
+    return req_of, mine, taken, emits, failed, own_failed
+
+
+def rider_shape(events, done_line, r):
+    """DoneErrIff signature C04-done-first-part: the batcher consumed r by a MergeSplit with its held batch whose FIRST result
+    holds nothing of r (no item, no container) while a later result does; one of the first three export calls recorded after
+    that return (the first result's export; the export of the previous request's last part and the timer's flush of r's kept
+    last part may be recorded in between) FAILED, holds no item and no container of r and only items of requests the batcher
+    consumed before r (the held batch); no failed call holds an item or a container of r."""
+    req_of, mine, taken, emits, failed, own_failed = _callback_facts(events, done_line, r)
+    if own_failed or r not in taken:
         return False
-    for n, (i, e) in enumerate(emits):
-        if e["k"] not in failed or mine(e) or i < order[r] or not req_of(e):
-            continue
-        if not all(q in order and order[q] < order[r] for q in req_of(e)):
-            continue
-        near = [emits[m][1] for m in (n - 1, n + 1, n + 2) if 0 <= m < len(emits)]
-        if any(r in req_of(x) for x in near):
-            return True
-    return False
+    sp = events[taken[r]]
+    if not sp["merged"] or r in sp["parts"][0]["reqs"] or not any(r in p["reqs"] for p in sp["parts"][1:]):
+        return False
+    after = [e for i, e in emits if i > taken[r]][:3]
+    return any(e["k"] in failed and not mine(e) and req_of(e) and all(q in taken and taken[q] < taken[r] for q in req_of(e))
+               for e in after)
+
+
+def dataless_tail(events, done_line, r):
+    """DoneErrIff signature C04-split-dataless-remainder: the MergeSplit by which the batcher consumed r returned at least two
+    parts and its LAST part holds no item and holds containers of r (what is left of r once all its items were extracted) --
+    r's completion was counted on a part without data, which the batcher keeps as its current batch and merges later
+    requests into -- and an export call recorded after that return failed; no failed call holds an item or a container
+    of r."""
+    req_of, mine, taken, emits, failed, own_failed = _callback_facts(events, done_line, r)
+    if own_failed or r not in taken:
+        return False
+    parts = events[taken[r]]["parts"]
+    if len(parts) < 2 or parts[-1]["n"] != 0 or r not in parts[-1]["reqs"]:
+        return False
+    return any(e["k"] in failed for i, e in emits if i > taken[r])
 
 
 def one_whole_profile(s, ids):
@@ -314,6 +351,9 @@ def report(c, scripts, results, viol, ctxd, trace_path):
                 if err and not v["detail"][2] and rider_shape(evs, len(evs) - 1, r):
                     sig = KNOWN_ATTACH
                     what += " (the failed part before its first part carried its callback without any of its data)"
+                elif err and not v["detail"][2] and dataless_tail(evs, len(evs) - 1, r):
+                    sig = KNOWN_TAIL
+                    what += " (a MergeSplit had returned the emptied remainder of the request as a last part; its callback was counted on it)"
             else:
                 what = head + ": " + json.dumps(v["detail"])[:300]
             seen[key] = seen.get(key, 0) + 1
